@@ -153,6 +153,12 @@ func init() {
 					fb = firstAll // every 16th model gets all 250 first bytes in the quick tier
 				}
 				c15Case(w, S, "family", fb)
+				if glued := []byte(m.Root.Print(gen.Layout{NL: "\n", Ann: "inline", Indent: "\t", Glue: true})); string(glued) != string(S) {
+					c15Case(w, glued, "family-glued", firstQuick)
+				}
+				if i%4 == 0 {
+					c15Case(w, []byte(m.Root.Print(gen.Layout{NL: "\n", Ann: "multi", Indent: "\t", Glue: true})), "family-glued-multi", firstQuick)
+				}
 				if i%499 == 1 {
 					w.Sample(string(S))
 				}
